@@ -29,9 +29,12 @@ class Potential_Form_Registry(object):
        :param register_pymath_functions: If `True` make functions from the python math module available in cexprtk expressions."""
 
     self._potential_forms = {}
+    # Names that _register_from_potentialforms() will claim at the end of construction
+    self._reserved_names = set()
 
     if register_standard:
       self._potential_forms.update(self._register_standard())
+      self._reserved_names = self._standard_potentialforms_names()
 
     self._potential_forms.update(self._build_table_forms(cfg.table_form))
 
@@ -66,6 +69,10 @@ class Potential_Form_Registry(object):
       potential_forms[name] = pf
     return potential_forms
 
+  def _standard_potentialforms_names(self):
+    from .. import potentialforms
+    return set([self._make_standard_name(name) for name, _potential_form in inspect.getmembers(potentialforms, _iscallable)])
+
   def _register_from_potentialforms(self, potential_forms):
     from .. import potentialforms
     for name, potential_form in inspect.getmembers(potentialforms, _iscallable):
@@ -90,7 +97,7 @@ class Potential_Form_Registry(object):
     builder = Table_Form_Builder()
 
     for d in definitions:
-      if d.name in self._potential_forms:
+      if d.name in self._potential_forms or d.name in self._reserved_names:
         raise Potential_Form_Registry_Exception("[Table-Form:{0}] has the same label as an existing potential form: '{0}'".format(d.name))
 
       pf = builder.create_potential_form(d)
